@@ -123,6 +123,9 @@ func (v VD) Go() any {
 	case "int8", "int16", "int32", "int64", "uint", "uint8", "uint16", "uint32", "uint64", "f32":
 		n, _ := buildNum(v)
 		return n
+	case "iotaints", "iotastrs", "iotaany":
+		l, _ := buildIota(v)
+		return l
 	case "map":
 		m := make(map[string]any, len(v.M))
 		for k, e := range v.M {
